@@ -21,9 +21,9 @@ from ..gen import flowjson as FJ
 from ..gen import sheets as G
 
 MANIFEST = dict(
-    text="Proof: (1) Lean theorem roundtrip_equiv_of_cert (validated bisimulation certificate ⇒ equal traces for every contact input sequence at the observation level of C04's statement: action content, operands, tests, arguments, test order, category names, timeouts, destinations) applied by the driver to each original flow and the flow recompiled from the REAL files written by flows_to_sheets (csv/xlsx × strip_uuids × numbered); plus per-flow checks of uuid / node-grouping preservation without --strip_uuids. (2) 'same actions with the same content' is proved universally on a Lean model of the action codec (Rpft/ActionCodec.lean: toFields = Action.get_row_model_fields of every action class + FlowRowModel validation; ofFields = FlowParser._get_row_action / _get_row_node): theorem action_roundtrip — for EVERY action inside the explicit decidable predicate Expressible (unbounded texts, attachment / quick-reply / variable lists, header and amount dictionaries) the exported row fields compile back to exactly that one action, content equal up to the invented action / templating-instance uuid; expressible_iff_roundtrip — Expressible is EXACTLY the set of actions that come back intact (so no clause can be dropped), with a kernel-checked negative witness per clause (needs_…) replayed on the real code; action_roundtrip_merged — the same for rows merged into an existing node (compiled by _get_row_action alone); constants tied by tables_agree_actcodec. exported_row_ids_unique (both id modes). (3) The EXPORTER preserves the flow's graph, universally (Props/C04_Graph.lean, on the exporter model Rpft/Export.lean that the C17 check ties to the real to_rows on every generated flow): the sheet is READ as a graph the way the sheet compiler resolves it (Rpft/ExportGraph.lean: an edge cell leaves the row named in `from` and enters its own row, on a go_to row the row named there; rows top to bottom, cells left to right = the order in which a router gets its cases back) and for EVERY flow (joins, cycles, self loops, parallel edges, unreachable nodes, duplicate uuids, dangling exits; unbounded) — export_preserves_graph: the node rows of the sheet are exactly the rows of the nodes reachable from the first node, each node once, rows consecutive and in order with their content (payloads_preserved, unreachable_not_exported), and the graph read from the sheet is, as a multiset, exactly: the start edge, the blank edges chaining the rows of one node, and ONE edge per exit that has a destination, with the exit's label, from the node's LAST row to the FIRST row of the destination node, directly or through a go_to row with exactly one edge and one target (out_edges_perm, exit_target_exported, export_no_invented_edges); exits that lead nowhere leave no trace (export_drops_dangling_exits = finding F-C04-a as a theorem, witness dangling_category_vanishes). Rows of one node: the compiler's merge rule (a row joins the node its _nodeId names iff it has exactly one edge, unconditional, from a row of that node) regroups the rows of an exported sheet exactly as the exporter grouped them (rows_grouped_as_exported), and the NODE graph read with that merging is the start edge plus one edge per connected exit between the reachable nodes (node_graph_preserved); without _nodeId every row is its own node (ungrouped_without_node_ids). ORDER of the edges leaving a node = order in which the recompiled router gets its tests: edges into the same row always keep their exit order (out_edges_same_target_order); the whole exit order is kept when no edge of the node was prepended to an existing row (out_edges_order_of_not_prepended; in particular on sheets without joins, out_edges_order_of_join_free; cycles and self loops allowed), and for a node without go_to edge it is kept IF AND ONLY IF the targets of its exits stand in the sheet in exit order (out_edges_order_iff_targets_sorted) — the negation is exactly finding F-C04-b, kernel-checked witness order_changes_at_join (t1→x, t2→y, y→x comes back as t2, t1), negative witnesses for every hypothesis. Errors: export_ok_iff (accepted iff every reachable node has a row model and every reachable exit names a node), export_error_cases / export_noNode_iff / export_noRows_iff, stripped_error_iff (the id remapping never fails: every id a row mentions is the id of a row). export_preserves_graph_stripped: the final rows (readable or numbered ids) are the temp-id rows renamed by a function injective on the row ids that never yields the literal start, so every statement holds for the final sheet. Tie: the Lean reading (driver op export.graph) of the REAL rows of the real to_rows (both id modes) is compared on every generated flow of the flow stream (also outside Expressible) with the real flow's edge list and with each of these statements. Universal over whole flows (exporter + cells + compiler composed) only per explored flow (C04_full visible).",
+    text="Proof: (1) Lean theorem roundtrip_equiv_of_cert (validated bisimulation certificate ⇒ equal traces for every contact input sequence at the observation level of C04's statement: action content, operands, tests, arguments, test order, category names, timeouts, destinations) applied by the driver to each original flow and the flow recompiled from the REAL files written by flows_to_sheets (csv/xlsx × strip_uuids × numbered); plus per-flow checks of uuid / node-grouping preservation without --strip_uuids. (2) 'same actions with the same content' is proved universally on a Lean model of the action codec (Rpft/ActionCodec.lean: toFields = Action.get_row_model_fields of every action class + FlowRowModel validation; ofFields = FlowParser._get_row_action / _get_row_node): theorem action_roundtrip — for EVERY action inside the explicit decidable predicate Expressible (unbounded texts, attachment / quick-reply / variable lists, header and amount dictionaries) the exported row fields compile back to exactly that one action, content equal up to the invented action / templating-instance uuid; expressible_iff_roundtrip — Expressible is EXACTLY the set of actions that come back intact (so no clause can be dropped), with a kernel-checked negative witness per clause (needs_…) replayed on the real code; group actions with ANY number of groups: group_action_comes_back / group_names_roundtrip (every group name comes back, in order, for every list), expressibleMod_iff_roundtrip — the round trip is exact up to the uuids of the groups after the first (obj_id is one cell: it carries the first group's uuid), exactly on ExpressibleModTailUuids, and expressible_iff_mod_and_tail_uuids — fully intact iff moreover those uuids are the ones a sheet gives back (witness needs_tail_uuids_kept = open finding F-C04-g); action_roundtrip_merged — the same for rows merged into an existing node (compiled by _get_row_action alone); constants tied by tables_agree_actcodec. exported_row_ids_unique (both id modes). (3) The EXPORTER preserves the flow's graph, universally (Props/C04_Graph.lean, on the exporter model Rpft/Export.lean that the C17 check ties to the real to_rows on every generated flow): the sheet is READ as a graph the way the sheet compiler resolves it (Rpft/ExportGraph.lean: an edge cell leaves the row named in `from` and enters its own row, on a go_to row the row named there; rows top to bottom, cells left to right = the order in which a router gets its cases back) and for EVERY flow (joins, cycles, self loops, parallel edges, unreachable nodes, duplicate uuids, dangling exits; unbounded) — export_preserves_graph: the node rows of the sheet are exactly the rows of the nodes reachable from the first node, each node once, rows consecutive and in order with their content (payloads_preserved, unreachable_not_exported), and the graph read from the sheet is, as a multiset, exactly: the start edge, the blank edges chaining the rows of one node, and ONE edge per exit that has a destination, with the exit's label, from the node's LAST row to the FIRST row of the destination node, directly or through a go_to row with exactly one edge and one target (out_edges_perm, exit_target_exported, export_no_invented_edges); exits that lead nowhere leave no trace (export_drops_dangling_exits = finding F-C04-a as a theorem, witness dangling_category_vanishes). Rows of one node: the compiler's merge rule (a row joins the node its _nodeId names iff it has exactly one edge, unconditional, from a row of that node) regroups the rows of an exported sheet exactly as the exporter grouped them (rows_grouped_as_exported), and the NODE graph read with that merging is the start edge plus one edge per connected exit between the reachable nodes (node_graph_preserved); without _nodeId every row is its own node (ungrouped_without_node_ids). ORDER of the edges leaving a node = order in which the recompiled router gets its tests: edges into the same row always keep their exit order (out_edges_same_target_order); the whole exit order is kept when no edge of the node was prepended to an existing row (out_edges_order_of_not_prepended; in particular on sheets without joins, out_edges_order_of_join_free; cycles and self loops allowed), and for a node without go_to edge it is kept IF AND ONLY IF the targets of its exits stand in the sheet in exit order (out_edges_order_iff_targets_sorted) — the negation is exactly finding F-C04-b, kernel-checked witness order_changes_at_join (t1→x, t2→y, y→x comes back as t2, t1), negative witnesses for every hypothesis. Errors: export_ok_iff (accepted iff every reachable node has a row model and every reachable exit names a node), export_error_cases / export_noNode_iff / export_noRows_iff, stripped_error_iff (the id remapping never fails: every id a row mentions is the id of a row). export_preserves_graph_stripped: the final rows (readable or numbered ids) are the temp-id rows renamed by a function injective on the row ids that never yields the literal start, so every statement holds for the final sheet. Tie: the Lean reading (driver op export.graph) of the REAL rows of the real to_rows (both id modes) is compared on every generated flow of the flow stream (also outside Expressible) with the real flow's edge list and with each of these statements. Universal over whole flows (exporter + cells + compiler composed) only per explored flow (C04_full visible).",
     ref="§5 C04",
-    note="Trusts: Lean kernel; certificate search untrusted; harness canonicalisers (flows.canon_flow, actcodec.canon_action); Python mirror of the exporter DFS (gen/flowjson.py order_stable) defines the OrderStable part of the flow domain; CPython float(repr(x)) == x (a float amount is carried as its repr text); the cell layer between row model and sheet is C07's model — here it is exercised on the real code only (direct oracle through the real RowDataSheet / SheetParser, single row and shared sheet). Action codec model is tied on generated actions of every kind (mostly expressible + one-clause-broken + pass-through types) and on generated row fields (valid and malformed) with ASCII-cased names and ASCII digits. Flow domain `Expressible` (gen/flowjson.py docstring); action domain `ActionCodec.Expressible`. Known findings exercised deterministically outside the main streams: F-C04-a (unconnected conditional categories vanish), F-C04-b (test order at joins), F-C04-d (webhook headers), F-C04-e (group-split category names), F-C04-f (webhook body next to a message_text column), F-C04-g (only the first group of a multi-group action is compiled), F-C04-h (field key regenerated from the field name), F-C04-i (set_contact_channel exported under message_text), F-C04-j (templating variables padded to the longest list of the sheet).",
+    note="Trusts: Lean kernel; certificate search untrusted; harness canonicalisers (flows.canon_flow, actcodec.canon_action); Python mirror of the exporter DFS (gen/flowjson.py order_stable) defines the OrderStable part of the flow domain; CPython float(repr(x)) == x (a float amount is carried as its repr text); the cell layer between row model and sheet is C07's model — here it is exercised on the real code only (direct oracle through the real RowDataSheet / SheetParser, single row and shared sheet). Action codec model is tied on generated actions of every kind (mostly expressible + one-clause-broken + pass-through types) and on generated row fields (valid and malformed) with ASCII-cased names and ASCII digits. Flow domain `Expressible` (gen/flowjson.py docstring); action domain `ActionCodec.Expressible`. Known findings exercised deterministically outside the main streams: F-C04-a (unconnected conditional categories vanish), F-C04-b (test order at joins), F-C04-d (webhook headers), F-C04-e (group-split category names), F-C04-f (webhook body next to a message_text column), F-C04-g (narrowed after the repair F-C04-k: without --strip_uuids the uuids of the groups AFTER THE FIRST of a group action are not carried — obj_id is one cell; main streams generate multi-group actions and compare them up to exactly that), F-C04-h (field key regenerated from the field name), F-C04-i (set_contact_channel exported under message_text), F-C04-j (templating variables padded to the longest list of the sheet).",
     technique="Lean 4 proof of certificate soundness + verified checker on original vs recompiled-from-real-files flow; Lean 4 proof of the action codec round trip (all expressible actions) + differential tie and direct oracle on the real export / compile code",
 )
 
@@ -65,9 +65,29 @@ def roundtrip(doc, fmt, strip, numbered, workdir):
         shutil.rmtree(d, ignore_errors=True)
 
 
-def keep_checks(f1, f2):
-    """without --strip_uuids: node identifiers, node grouping of actions, group / flow uuids preserved"""
+def carried_group_uuids(f1):
+    """name ↦ uuid of the group references whose uuid an exported sheet carries: the FIRST group of an
+    add/remove-groups action (obj_id of its row) and the group of the FIRST has_group case of a group split (obj_id of its row)"""
+    out = {}
+    for n in f1["nodes"]:
+        for a in n.get("actions", []):
+            if a.get("type") in ("add_contact_groups", "remove_contact_groups") and a.get("groups") and a["groups"][0].get("uuid"):
+                out.setdefault(a["groups"][0]["name"], a["groups"][0]["uuid"])
+        r = n.get("router") or {}
+        for k in (r.get("cases") or [])[:1]:   # a split_by_group row has ONE obj_id too: the group of its first case
+            if r.get("operand") == "@contact.groups" and k.get("type") == "has_group" and len(k.get("arguments", [])) > 1 and k["arguments"][0]:
+                out.setdefault(k["arguments"][1], k["arguments"][0])
+    return out
+
+
+def keep_checks(f1, f2, tail_lost=None):
+    """without --strip_uuids: node identifiers, node grouping of actions, group / flow uuids preserved.
+    Open finding F-C04-g (narrowed): the uuid of a group AFTER THE FIRST of a group action is not carried by the sheet
+    (obj_id is one cell); it comes back resolved by name — preserved when the name's uuid is carried elsewhere in the
+    sheet, invented otherwise.  Exactly that (trigger: several groups, the further one has a uuid, no carrier;
+    pattern: only that uuid differs, the new one is a fresh non-empty uuid) is counted in `tail_lost`, not reported."""
     problems = []
+    carried = carried_group_uuids(f1)
     n2 = {n["uuid"]: n for n in f2["nodes"]}
     for n in f1["nodes"]:
         if n["uuid"] not in n2:
@@ -80,14 +100,24 @@ def keep_checks(f1, f2):
             problems.append(f"node {n['uuid']}: actions regrouped or altered: {a1} vs {a2}")
         for x, y in zip(n.get("actions", []), m.get("actions", [])):
             if x.get("type") in ("add_contact_groups", "remove_contact_groups"):
-                if [g.get("uuid") for g in x["groups"]] != [g.get("uuid") for g in y.get("groups", [])]:
-                    problems.append(f"node {n['uuid']}: group uuid not preserved")
+                gx, gy = x["groups"], y.get("groups", [])
+                if len(gx) != len(gy) or [g["name"] for g in gx] != [g["name"] for g in gy]:
+                    problems.append(f"node {n['uuid']}: groups of an action not preserved")
+                    continue
+                for i, (g, h) in enumerate(zip(gx, gy)):
+                    if g.get("uuid") == h.get("uuid"):
+                        continue
+                    if i > 0 and g.get("uuid") and g["name"] not in carried and h.get("uuid") and h["uuid"] not in carried.values():
+                        if tail_lost is not None:
+                            tail_lost.append({"node": n["uuid"], "group": g["name"], "uuid": g["uuid"], "comes_back_with": h["uuid"]})
+                        continue
+                    problems.append(f"node {n['uuid']}: group uuid not preserved" + (" (a group after the first whose uuid the sheet carries elsewhere)" if i > 0 else ""))
             if x.get("type") == "enter_flow" and x["flow"].get("uuid") != y.get("flow", {}).get("uuid"):
                 problems.append(f"node {n['uuid']}: sub-flow uuid not preserved")
     return problems
 
 
-def check_one(drv, doc, fmt, strip, numbered, workdir):
+def check_one(drv, doc, fmt, strip, numbered, workdir, tail_lost=None):
     """returns None if fine, else dict describing the failure"""
     doc2, err = roundtrip(doc, fmt, strip, numbered, workdir)
     if err:
@@ -101,7 +131,7 @@ def check_one(drv, doc, fmt, strip, numbered, workdir):
             return {"what": "recompiled flow behaves differently from the original", "distinguishing_choice_sequence": ans.get("path"),
                     "original_then": ans.get("a"), "recompiled_then": ans.get("b")}
         if not strip:
-            p = keep_checks(f1, f2)
+            p = keep_checks(f1, f2, tail_lost)
             if p:
                 return {"what": "without --strip_uuids: " + p[0], "problems": p[:5]}
         out = ans
@@ -301,13 +331,18 @@ def worker(args):
                     indeg[e["destination_uuid"]] = indeg.get(e["destination_uuid"], 0) + 1
         bump("flows_with_join", any(v > 1 for v in indeg.values()))
         bump("flows_with_router", any(nd.get("router") for nd in f["nodes"]))
+        bump("flows_with_multi_group_action", any(len(a.get("groups", [])) > 1 for nd in f["nodes"] for a in nd.get("actions", [])))
         cfgs = CONFIGS if (all_configs or gt) else rng.sample(CONFIGS, 2)
         keys.append(json.dumps(doc, sort_keys=True))
         if sample is None:
             sample = {"flow": f["nodes"][:2], "configs": cfgs}
         for fmt, strip, numbered in cfgs:
             bump(f"config.{fmt}.{'strip' if strip else 'keep'}.{'numbered' if numbered else 'named'}")
-            fail = check_one(drv, doc, fmt, strip, numbered, workdir)
+            lost = []
+            fail = check_one(drv, doc, fmt, strip, numbered, workdir, lost)
+            if not strip:
+                bump("keep.group_actions_with_several_groups", sum(1 for nd in f["nodes"] for a in nd.get("actions", []) if len(a.get("groups", [])) > 1))
+                bump("keep.tail_group_uuid_not_carried(F-C04-g)", len(lost))
             if fail:
                 bad.append({"doc": doc, "config": [fmt, strip, numbered], "fail": fail, "src": src})
                 break
@@ -411,6 +446,18 @@ def corpus_docs():
         basic(a, [{"uuid": u(), "type": "add_contact_groups", "groups": [{"name": "Parents; Teachers", "uuid": g1}]}], b),
         basic(b, [{"uuid": u(), "type": "remove_contact_groups", "groups": [{"name": "Staff|Volunteers", "uuid": g2}]}], None)],
         groups=[("Parents; Teachers", g1), ("Staff|Volunteers", g2)])))
+    # (4) several groups in one action: every group comes back; the uuids of the further groups are carried by other rows
+    # (first position of another action), so everything is preserved without --strip_uuids too
+    a, b, c = u(), u(), u()
+    g1, g2, g3 = u(), u(), u()
+    docs.append(("several groups in one action (uuids carried by other rows)", doc([
+        basic(a, [{"uuid": u(), "type": "add_contact_groups", "groups": [{"name": "Parents; Teachers", "uuid": g1}, {"name": "Staff|Volunteers", "uuid": g2},
+                                                                           {"name": "a\\b", "uuid": g3}, {"name": "Parents; Teachers", "uuid": g1}]}], b),
+        basic(b, [{"uuid": u(), "type": "remove_contact_groups", "groups": [{"name": "Staff|Volunteers", "uuid": g2}, {"name": "Parents; Teachers", "uuid": g1}]},
+                  msg("between"),
+                  {"uuid": u(), "type": "remove_contact_groups", "groups": [{"name": "a\\b", "uuid": g3}]}], c),
+        basic(c, [msg("bye")], None)],
+        groups=[("Parents; Teachers", g1), ("Staff|Volunteers", g2), ("a\\b", g3)])))
     return docs
 
 
@@ -511,6 +558,44 @@ def known_streams(drv, ck, workdir):
             if fail and "behaves differently" in fail["what"]:
                 ck.known("F-C04-e", "category names of a group split are not exported: they come back as generated names (None_<Group>)", {"fail": fail})
             break
+
+
+def known_groups_stream(drv, ck, workdir):
+    """F-C04-g (narrowed) on real files: a flow whose only group action has two groups, both with uuids.  Attribution:
+    trigger (several groups, the further one with a uuid no other row carries, uuids kept) AND pattern (with uuids kept the
+    only difference is that uuid; with --strip_uuids nothing differs; both group NAMES are back in order in every configuration)."""
+    docs = dict((name, d) for name, d in corpus_docs())
+    d = json.loads(json.dumps(docs["group names with separators"]))
+    f = d["flows"][0]
+    second = {"name": "Grp B", "uuid": "22222222-2222-4222-a222-222222222222"}
+    f["nodes"][0]["actions"][0]["groups"].append(second)
+    d["groups"].append(dict(second))
+    names = [g["name"] for g in f["nodes"][0]["actions"][0]["groups"]]
+    seen = 0
+    for fmt, strip, numbered in CONFIGS:
+        lost = []
+        fail = check_one(drv, d, fmt, strip, numbered, workdir, lost)
+        ck.evaluations += 1
+        if fail:
+            old = "behaves differently" in fail["what"]
+            if old:
+                # the repaired defect (recorded as fixed): the second group is gone → reported as a violation by ck.known
+                ck.known("F-C04-k", "an add/remove-groups action with several groups is compiled from the first group only: the other groups are gone",
+                         {"flow": d, "config": [fmt, strip, numbered], "detail": fail})
+            else:
+                ck.violation("flow with a two-group action: " + fail["what"], {"flow": d, "config": [fmt, strip, numbered], "detail": fail})
+            return
+        if strip and lost:
+            raise core.Infra("keep_checks ran in a strip configuration")
+        if not strip:
+            if [x["group"] for x in lost] == ["Grp B"] and lost[0]["uuid"] == second["uuid"]:
+                seen += 1
+            elif not lost:
+                ck.notes.append(f"F-C04-g no longer reproduces on real files ({fmt} keep): the uuid of the second group is preserved")
+    if seen:
+        ck.known("F-C04-g", "without --strip_uuids the uuid of a group after the first of an add/remove-groups action is not preserved unless another row carries it "
+                            "(obj_id holds the first group's uuid only); all group names, their order and the first uuid are preserved",
+                 {"groups": names, "lost_uuid_of": "Grp B", "configurations": seen})
 
 
 def known_cr_stream(drv, ck, workdir):
@@ -630,6 +715,7 @@ def run(ck: core.Check):
         drv = core.Driver()
         corpus_stream(drv, ck, workdir)
         known_streams(drv, ck, workdir)
+        known_groups_stream(drv, ck, workdir)
         known_cr_stream(drv, ck, workdir)
         run_action_codec(ck, quick)
         n_total = 1920 if quick else 9600
@@ -654,7 +740,7 @@ def run(ck: core.Check):
                 det = det or b["fail"]
                 ck.violation(det["what"], {"document": doc, "config": {"format": b["config"][0], "strip_uuids": b["config"][1], "numbered": b["config"][2]},
                                            "detail": det, "source": b["src"]})
-        for need in ("expressible.foreign", "expressible.compiled", "flows_with_join", "flows_with_router"):
+        for need in ("expressible.foreign", "expressible.compiled", "flows_with_join", "flows_with_router", "flows_with_multi_group_action"):
             if ck.strata.get(need, 0) < 5:
                 raise core.Infra(f"generator stratum {need} under-represented: {ck.strata.get(need, 0)}")
     finally:
@@ -665,6 +751,8 @@ def replay(path):
     rec = json.load(open(path))
     print(json.dumps(rec, indent=1, ensure_ascii=False)[:6000])
     rp = rec.get("replay", {})
+    if rp.get("action") is None and isinstance(rp.get("example"), dict) and rp["example"].get("action") is not None:
+        rp = rp["example"]          # a finding recorded as fixed that shows again (ck.known → violation)
     if rp.get("action") is not None:
         (res, val), fields, row = AC.real_roundtrip(rp["action"])
         print("original (canonical):", AC.dumps(AC.canon_action(rp["action"])))
